@@ -6,6 +6,7 @@ unguarded recursive builders.
 """
 import ast
 
+from ..astx import code
 from ..astx import walk_no_nested, dotted, call_name, self_attr, func_params, dominating_conditions, flatten_conditions, \
     parent, ancestors, terminates
 from ..core import norm, Inconclusive
@@ -61,7 +62,7 @@ def builder_table(m):
                 cls = (call_name(ret.value) or "").split(".")[0] if ret is not None else None
                 if cls is None:
                     # dict: DictNode.from_dict / FixedKeyDictNode.from_dict
-                    cls = "DictNode" if "DictNode.from_dict" in ast.unparse(v.node) else None
+                    cls = "DictNode" if "DictNode.from_dict" in code(v.node) else None
                 out[tn] = (cls, v)
     return out
 
@@ -91,7 +92,7 @@ def r18a(ctx):
         jc_n = jc
         if t == "dict":
             # both builders choose DictNode / FixedKeyDictNode by allow_key_edits (the selection itself is R10a)
-            jsrc, bsrc = ast.unparse(node), ast.unparse(bf.node)
+            jsrc, bsrc = ast.unparse(node), code(bf.node)
             both = all("DictNode.from_dict" in x.replace("FixedKeyDictNode", "FKD") and "FixedKeyDictNode.from_dict" in x
                        for x in (jsrc, bsrc))
             jc_n = bc = "DictNode|FixedKeyDictNode" if both else (jc, bc)
@@ -183,7 +184,7 @@ def r18b(ctx):
         if "items" in m.attrs[q] and m.attrs[q]["items"][0] == "def":
             f = m.attrs[q]["items"][1]
             short = q.rsplit(".", 1)[-1]
-            txt = ast.unparse(f.node)
+            txt = code(f.node)
             if ".key" in txt and ".value" in txt:
                 ctx.proved("R18b", f.file, f"{short}.items", f.node, f"{short}.items shape", "yields (pair.key, pair.value)")
             else:
